@@ -105,6 +105,7 @@ impl<'a> GetBlocksProofProcess<'a> {
             .reply_proof::<packed::SendBlocksProofV1>(
                 self.peer,
                 self.nc,
+                &snapshot,
                 &last_block,
                 positions,
                 proved_items,
